@@ -6,7 +6,8 @@ open Zio
    pred     := 0 | 1 f c k | 2 p p | 3 p p | 4 p          (c: 0 ==,1 !=,2 <,3 <=,4 >,5 >=)
    chunks   := k (start end dtype kind run target nrows (t e id ch)..)..
    get1 request chunks           -> "<get_array> # <selection of the full result> # lost=<ids>"
-   get2 request chunksA chunksB  -> "<get_array> # <selection of the full merged result>"
+   get2 request chunksA chunksB  -> "<get_array> # <selection of the full merged result> # lostA=<ids> lostB=<ids>"
+   atr t0 t1 chunk               -> "ok start end ids" | "err N"   (StorageBackend.apply_time_range)
    savers superrun_nowrite fuzzy allow_incomplete tr sel keep drop n (name save_when is_target in_save temp stored)..
    result   := "ok f,f|v,v;v,v" | "err N" *)
 let none_run = -999999
@@ -75,8 +76,22 @@ let handle toks =
       let got = get_array2 r.md csa csb r.rq p in
       let tr = to_absolute r.md csa r.rq.rq_time_range r.rq.rq_seconds_range r.rq.rq_time_within in
       (match tr with
-       | Err e -> show_res got ^ " # " ^ Printf.sprintf "err %d" (int_of_z e)
-       | Ok tro -> show_res got ^ " # " ^ show_res (select_full2 csa csb tro r.rq.rq_mode p r.rq.rq_keep r.rq.rq_drop))
+       | Err e -> show_res got ^ " # " ^ Printf.sprintf "err %d" (int_of_z e) ^ " # lostA= lostB="
+       | Ok tro ->
+           let lost_of cs = (match tro, r.rq.rq_mode with
+             | Some (t0, t1), FC ->
+                 List.concat_map (fun c -> List.filter_map (fun q ->
+                   if lost t0 t1 c q then Some (string_of_int (int_of_z q.rid)) else None) c.crows) cs
+             | _ -> []) in
+           show_res got ^ " # " ^ show_res (select_full2 csa csb tro r.rq.rq_mode p r.rq.rq_keep r.rq.rq_drop)
+           ^ " # lostA=" ^ String.concat "," (lost_of csa) ^ " lostB=" ^ String.concat "," (lost_of csb))
+  | "atr" :: rest ->
+      cur := ints rest;
+      let t0 = next () in let t1 = next () in let c = p_chunk () in
+      (match apply_time_range c (zi t0) (zi t1) with
+       | Ok c' -> Printf.sprintf "ok %d %d %s" (int_of_z c'.cstart) (int_of_z c'.cend)
+                    (String.concat "," (List.map (fun r -> string_of_int (int_of_z r.rid)) c'.crows))
+       | Err e -> Printf.sprintf "err %d" (int_of_z e))
   | "savers" :: rest ->
       cur := ints rest;
       let b () = next () <> 0 in
